@@ -211,3 +211,65 @@ pub fn simd_contains(needle: &str, haystack: &str) -> Option<bool> {
 pub fn format_stub(_args: core::fmt::Arguments<'_>) -> String {
     String::new()
 }
+
+/// Unicode White_Space (the set `char::is_whitespace` tests), on a decoded code point.
+pub fn is_white_space(cp: u32) -> bool {
+    (cp >= 0x09 && cp <= 0x0D)
+        || cp == 0x20
+        || cp == 0x85
+        || cp == 0xA0
+        || cp == 0x1680
+        || (cp >= 0x2000 && cp <= 0x200A)
+        || cp == 0x2028
+        || cp == 0x2029
+        || cp == 0x202F
+        || cp == 0x205F
+        || cp == 0x3000
+}
+
+/// Decode the character starting at byte i of a valid UTF-8 string: (code point, width).
+fn decode_at(b: &[u8], i: usize) -> (u32, usize) {
+    let b0 = b[i];
+    if b0 < 0x80 {
+        (b0 as u32, 1)
+    } else if b0 < 0xE0 {
+        ((((b0 & 0x1F) as u32) << 6) | (b[i + 1] & 0x3F) as u32, 2)
+    } else if b0 < 0xF0 {
+        ((((b0 & 0x0F) as u32) << 12) | (((b[i + 1] & 0x3F) as u32) << 6) | (b[i + 2] & 0x3F) as u32, 3)
+    } else {
+        (
+            (((b0 & 0x07) as u32) << 18)
+                | (((b[i + 1] & 0x3F) as u32) << 12)
+                | (((b[i + 2] & 0x3F) as u32) << 6)
+                | (b[i + 3] & 0x3F) as u32,
+            4,
+        )
+    }
+}
+
+/// Exact replacement for `str::trim` (all of Unicode White_Space), naive byte loops.
+pub fn trim_exact(s: &str) -> &str {
+    let b = s.as_bytes();
+    let mut lo = 0;
+    let mut hi = b.len();
+    while lo < hi {
+        let (cp, w) = decode_at(b, lo);
+        if !is_white_space(cp) {
+            break;
+        }
+        lo += w;
+    }
+    while hi > lo {
+        // start of the last character
+        let mut st = hi - 1;
+        while st > lo && (b[st] & 0xC0) == 0x80 {
+            st -= 1;
+        }
+        let (cp, _w) = decode_at(b, st);
+        if !is_white_space(cp) {
+            break;
+        }
+        hi = st;
+    }
+    &s[lo..hi]
+}
